@@ -18,7 +18,9 @@ SESSION_POLICY = """
 
 
 class Daemon:
-    def __init__(self, policy=SESSION_POLICY, limits=None, extra="", auth=None, servicedirs=(), bus_type="session", env_extra=None):
+    def __init__(self, policy=SESSION_POLICY, limits=None, extra="", auth=None, servicedirs=(), bus_type="session", env_extra=None, cli_address=False):
+        """cli_address: the listening address is given on the command line (--address=, as systemd units and dbus-run-session do); the
+        configuration file's <listen> then names a socket nobody uses"""
         os.makedirs(RUNROOT, exist_ok=True)
         self.dir = tempfile.mkdtemp(prefix="bus-", dir=RUNROOT)
         for d in (self.dir, RUNROOT):       # clients of other uids must be able to reach the socket
@@ -37,7 +39,7 @@ class Daemon:
   <listen>unix:path=%s</listen>
 %s%s%s%s%s
 </busconfig>
-""" % (bus_type, self.path, au, sd, policy, lim, extra)
+""" % (bus_type, self.path + (".unused" if cli_address else ""), au, sd, policy, lim, extra)
         self.conf_path = os.path.join(self.dir, "bus.conf")
         with open(self.conf_path, "w") as f:
             f.write(self.config)
@@ -50,7 +52,8 @@ class Daemon:
             if "LD_PRELOAD" in env_extra:
                 env["ASAN_OPTIONS"] += ":verify_asan_link_order=0"
         self.errf = open(os.path.join(self.dir, "stderr"), "w+")
-        self.proc = subprocess.Popen([DAEMON, "--config-file=" + self.conf_path, "--nofork", "--nopidfile", "--nosyslog"],
+        self.proc = subprocess.Popen([DAEMON, "--config-file=" + self.conf_path, "--nofork", "--nopidfile", "--nosyslog"] +
+                                     (["--address=unix:path=" + self.path] if cli_address else []),
                                      stdout=subprocess.DEVNULL, stderr=self.errf, env=env)
         t0 = time.time()
         while not os.path.exists(self.path):
